@@ -153,7 +153,15 @@ typedef struct {
     int present[256];
     uint64_t h_all;
     int errors;        /* reader calls that returned an error */
+    /* item counts and (when dump_keep_sequences(1)) the running hash after every item, for prefix comparisons */
+    size_t n_anno[256], n_utc[256], n_user;
+    uint64_t *seq_anno[256], *seq_utc[256], *seq_user;
 } dump_t;
+void dump_keep_sequences(int on);
+void dump_free(dump_t *d);
+/* 'a' (reader view of an unclosed original) must be a prefix of 'b' (its copy), list by list; FSR samples are
+ * compared by reading both files.  Differences are reported under 'prop' with keys "<kp>|..." */
+int dump_compare_prefix(const dump_t *a, const dump_t *b, const char *path_a, const char *path_b, const char *prop, const char *kp, const uint8_t *skip_fsr);
 int dump_file(const char *path, dump_t *d, uint64_t seed);
 int dump_reader(struct jls_rd_s *rd, dump_t *d, uint64_t seed);
 /* prefix semantics for files reopened after a crash: everything returned must be an unaltered,
